@@ -581,8 +581,16 @@ fn run_case_on(case: &Case, s: &mut Server) -> Result<CaseReport, String> {
     s.case_counter += 1;
     let nonce = s.case_counter;
     let res = resolve(ep, case, s, nonce);
-    let named = res.named.clone();
+    let mut named = res.named.clone();
     let group = &case.group;
+    let several = names_several_namespaces(ep.id, case.variant);
+    if several {
+        // the request names every namespace that holds data: it is a permitted request only if all of them are
+        // permitted; otherwise it "names a forbidden namespace" (nothing of it may be shown / nothing may change)
+        if let Some(f) = NS.iter().take(DATA_NS).map(|(id, _)| canon_ns(id)).find(|n| !group.permitted(n)) {
+            named = Some(f);
+        }
+    }
     let mut labels = vec![
         format!("kind:{:?}", ep.kind),
         format!("op:{}", ep.op.name()),
@@ -590,6 +598,9 @@ fn run_case_on(case: &Case, s: &mut Server) -> Result<CaseReport, String> {
         (if developer { "role:developer" } else { "role:visitor" }).to_string(),
         res.spelling_label.to_string(),
     ];
+    if several {
+        labels.push("request:names_several_namespaces".into());
+    }
     match group {
         GroupSpec::Unrestricted => labels.push("group:unrestricted".into()),
         GroupSpec::Lists { wl, bl } => {
@@ -719,6 +730,10 @@ fn sweep_cases() -> Vec<Case> {
             let mut variants: Vec<u8> = vec![0, 1];
             if ep.id == "v2.mcpserver_import.create" && gi < 2 {
                 variants.extend([1u8 << 1, 2 << 1, 3 << 1, 4 << 1]);
+            }
+            // list endpoints: one item of every namespace in a single request (mixed permitted / forbidden)
+            if names_several_namespaces(ep.id, 2) {
+                variants.extend([2u8, 3]);
             }
             for target in 0..NS.len() as u8 {
                 let spellings: &[Spelling] = if target == 0 { &[Spelling::Empty, Spelling::Omitted, Spelling::Public] } else { &[Spelling::Empty] };
